@@ -27,7 +27,16 @@ LOG = z3.Function("LOG", z3.RealSort(), z3.RealSort())
 EXP = z3.Function("EXP", z3.RealSort(), z3.RealSort())
 
 
-def _map(a, f):
+def _has_sym(a):
+    if isinstance(a, numpy.ndarray):
+        return (isinstance(a, sx.SArr) or a.dtype == object) and any(sx.is_sym(v) for v in numpy.ndarray.ravel(a))
+    return sx.is_sym(a)
+
+
+def _map(a, f, real=None):
+    if real is not None and not _has_sym(a):
+        # numbers only (concrete replay, or a table of functions built once and used later): the real function
+        return real(numpy.asarray(a, dtype=float) if isinstance(a, numpy.ndarray) and (isinstance(a, sx.SArr) or a.dtype == object) else a)
     if isinstance(a, numpy.ndarray):
         out = numpy.empty(a.shape, dtype=object)
         for i in numpy.ndindex(a.shape):
@@ -66,16 +75,24 @@ class _NPF:
         return getattr(numpy, n)
 
     def log(self, a):
-        return _map(a, _log)
+        return _map(a, _log, numpy.log)
 
     def exp(self, a):
-        return _map(a, _exp)
+        return _map(a, _exp, numpy.exp)
 
     def log1p(self, a):
-        return _map(a, lambda v: _log(v + 1))
+        return _map(a, lambda v: _log(v + 1), numpy.log1p)
 
     def expm1(self, a):
-        return _map(a, lambda v: _exp(v) - 1)
+        return _map(a, lambda v: _exp(v) - 1, numpy.expm1)
+
+
+def _available(m):
+    """the table of predefined functions, read with the module's numpy replaced by the dual proxy: an
+    implementation that builds the table once (and keeps the function objects) keeps proxies that work on symbols
+    and on numbers alike"""
+    with harness.patched(m, numpy=_NPF()):
+        return m.FunctionReciprocalTransformer.available_fcts()
 
 
 class _Random:
@@ -103,7 +120,7 @@ def run_fct(cfg):
     name = cfg["name"]
 
     def h(e):
-        opts = m.FunctionReciprocalTransformer.available_fcts()
+        opts = _available(m)
         e.prove(name in opts, "name-is-predefined")
         n = cfg["n"]
         lo = DOMAIN.get(name)
@@ -506,7 +523,7 @@ def replay_reg(cfg, inputs, label):
     m = loader.load("mlmodel.sklearn_transform_inv_fct")
     name = cfg["name"]
     X = numpy.arange(1, 7, dtype=float).reshape(-1, 1) / 4
-    f = m.FunctionReciprocalTransformer.available_fcts()[name][0]
+    f = _available(m)[name][0]
     # a target that f maps to a line: y = f^-1(a*x+b), computed with the independent numpy inverse
     inv_np = {"log": numpy.exp, "exp": numpy.log, "log(1+x)": numpy.expm1, "log1p": numpy.expm1, "exp(x)-1": numpy.log1p, "expm1": numpy.log1p}[name]
     lin = 0.3 * X.ravel() + 0.2
@@ -529,7 +546,7 @@ def replay(cfg, inputs, label):
 
 def configs(tier):
     m = loader.load("mlmodel.sklearn_transform_inv_fct")
-    names = sorted(m.FunctionReciprocalTransformer.available_fcts())
+    names = sorted(_available(m))
     out = []
     for name in names:
         for nan in (False, True):
